@@ -13,10 +13,12 @@ package main
 
 import (
 	"context"
+	"crypto/sha1"
 	"encoding/json"
 	"flag"
 	"fmt"
 	"sort"
+	"strconv"
 	"strings"
 	"sync"
 	"sync/atomic"
@@ -65,13 +67,13 @@ type Case struct {
 	Start    uint32 `json:"start"`  // initial value of the ring counters
 	Putters  int    `json:"putters"`
 	Each     int    `json:"each"`
-	Multi    int    `json:"multi"`    // 1 in n puts use PutMulti
-	Detach   int    `json:"detach"`   // 1 in n callers stop waiting (cancelled context) and drain in the background
-	Poll     int    `json:"poll"`     // 1 in n reader iterations poll NextResultCh although no reply is due
-	WDelayUs int    `json:"wdelay"`   // writer delay per command
-	RDelayUs int    `json:"rdelay"`   // reader delay per reply
-	PDelayUs int    `json:"pdelay"`   // putter think time
-	Cancel   int    `json:"cancel"`   // flowbuffer: 1 in n puts use a context that is cancelled while waiting for a free token
+	Multi    int    `json:"multi"`  // 1 in n puts use PutMulti
+	Detach   int    `json:"detach"` // 1 in n callers stop waiting (cancelled context) and drain in the background
+	Poll     int    `json:"poll"`   // 1 in n reader iterations poll NextResultCh although no reply is due
+	WDelayUs int    `json:"wdelay"` // writer delay per command
+	RDelayUs int    `json:"rdelay"` // reader delay per reply
+	PDelayUs int    `json:"pdelay"` // putter think time
+	Cancel   int    `json:"cancel"` // flowbuffer: 1 in n puts use a context that is cancelled while waiting for a free token
 	Seed     uint64 `json:"seed"`
 }
 
@@ -388,9 +390,23 @@ type outLabel struct {
 	after int // emitted after all labels of event index `after` (and before those of after+1)
 	sub   int
 	text  string
+	digit uint64
 }
 
-func translateRing(c Case, info *runInfo) (string, string, map[string]int) {
+// ringDigit packs one step: kind (4 bits), p (12), s (4), code+1 or 0 (2), item+1 or 0 (13)
+func ringDigit(kind, p, s, code, item int) uint64 {
+	return uint64(kind) | uint64(p)<<4 | uint64(s)<<16 | uint64(code+1)<<20 | uint64(item+1)<<22
+}
+
+func encodeDigits(ds []uint64) string {
+	ss := make([]string, len(ds))
+	for i, d := range ds {
+		ss[i] = strconv.FormatUint(d, 10)
+	}
+	return "[" + strings.Join(ss, ";") + "]"
+}
+
+func translateRing(c Case, info *runInfo) (string, string, map[string]int, string, int) {
 	evs := info.evs
 	n := 1 << c.Factor
 	kinds := map[string]int{}
@@ -415,7 +431,7 @@ func translateRing(c Case, info *runInfo) (string, string, map[string]int) {
 			}
 		}
 		if !found {
-			return "", fmt.Sprintf("ticket %d should be on slot %d but no caller got that slot", j, want), kinds
+			return "", fmt.Sprintf("ticket %d should be on slot %d but no caller got that slot", j, want), kinds, "", 0
 		}
 	}
 	slotOfTicket := func(j int) int { return int((uint64(c.Start) + uint64(j)) % uint64(n)) }
@@ -487,16 +503,16 @@ func translateRing(c Case, info *runInfo) (string, string, map[string]int) {
 	// 4. emit
 	var out []outLabel
 	sub := 0
-	emitAt := func(after int, text string) {
+	emitAt := func(after int, text string, digit uint64) {
 		sub++
-		out = append(out, outLabel{after: after, sub: sub, text: text})
+		out = append(out, outLabel{after: after, sub: sub, text: text, digit: digit})
 		kinds[strings.Fields(strings.Trim(strings.TrimPrefix(strings.TrimPrefix(strings.TrimPrefix(text, "mki "), "mkc "), "mk "), "()"))[0]]++
 	}
 	ticketsEmitted := 0
 	needTicket := func(i, p int) {
 		for ticketsEmitted < p {
 			ticketsEmitted++
-			emitAt(i-1, "mk PutTicket")
+			emitAt(i-1, "mk PutTicket", ringDigit(0, 0, 0, -1, -1))
 		}
 	}
 	wi, ri := 0, 0
@@ -509,11 +525,11 @@ func translateRing(c Case, info *runInfo) (string, string, map[string]int) {
 		case evPutPark:
 			p := ticket[e.A]
 			needTicket(i, p)
-			emitAt(i, fmt.Sprintf("mkc (PutLock %d %d) 0", p, slotOfTicket(p)))
+			emitAt(i, fmt.Sprintf("mkc (PutLock %d %d) 0", p, slotOfTicket(p)), ringDigit(1, p, slotOfTicket(p), 0, -1))
 		case evPutFill:
 			p := ticket[e.A]
 			needTicket(i, p)
-			emitAt(i, fmt.Sprintf("mki (PutLock %d %d) %d %d", p, slotOfTicket(p), 1+e.B, p))
+			emitAt(i, fmt.Sprintf("mki (PutLock %d %d) %d %d", p, slotOfTicket(p), 1+e.B, p), ringDigit(1, p, slotOfTicket(p), 1+e.B, p))
 		case evPutBcastPre:
 			// the putter that just filled this slot with slept = true
 			p := 0
@@ -523,58 +539,58 @@ func translateRing(c Case, info *runInfo) (string, string, map[string]int) {
 					break
 				}
 			}
-			emitAt(i, fmt.Sprintf("mk (PutBcast %d %d)", p, e.A))
+			emitAt(i, fmt.Sprintf("mk (PutBcast %d %d)", p, e.A), ringDigit(2, p, e.A, -1, -1))
 		case evWNext:
 			if e.B == 1 {
-				emitAt(i, fmt.Sprintf("mki WNext 1 %d", wItems[wi]))
+				emitAt(i, fmt.Sprintf("mki WNext 1 %d", wItems[wi]), ringDigit(3, 0, 0, 1, wItems[wi]))
 				wi++
 			} else {
-				emitAt(i, "mkc WNext 0")
+				emitAt(i, "mkc WNext 0", ringDigit(3, 0, 0, 0, -1))
 			}
 		case evWPark:
 			if !inWait {
-				emitAt(i, "mkc WWaitEnter 0")
+				emitAt(i, "mkc WWaitEnter 0", ringDigit(4, 0, 0, 0, -1))
 				inWait = true
 			} else {
-				emitAt(i, "mkc WWaitRetry 0")
+				emitAt(i, "mkc WWaitRetry 0", ringDigit(5, 0, 0, 0, -1))
 			}
 			woke = false
 		case evWWake:
 			woke = true
 		case evWTake:
 			if inWait {
-				emitAt(i, fmt.Sprintf("mki WWaitRetry 1 %d", wItems[wi]))
+				emitAt(i, fmt.Sprintf("mki WWaitRetry 1 %d", wItems[wi]), ringDigit(5, 0, 0, 1, wItems[wi]))
 			} else {
-				emitAt(i, fmt.Sprintf("mki WWaitEnter 1 %d", wItems[wi]))
+				emitAt(i, fmt.Sprintf("mki WWaitEnter 1 %d", wItems[wi]), ringDigit(4, 0, 0, 1, wItems[wi]))
 			}
 			wi++
 			inWait, woke = false, false
 		case evRNext:
 			if e.B == 1 {
-				emitAt(i, fmt.Sprintf("mki RNext 1 %d", rItems[ri]))
+				emitAt(i, fmt.Sprintf("mki RNext 1 %d", rItems[ri]), ringDigit(6, 0, 0, 1, rItems[ri]))
 				ri++
 			} else {
-				emitAt(i, "mkc RNext 0")
+				emitAt(i, "mkc RNext 0", ringDigit(6, 0, 0, 0, -1))
 			}
 		case hvDeliver:
-			emitAt(i, fmt.Sprintf("mki (RDeliver %d) 1 %d", ticket[e.A], ticket[e.A]))
+			emitAt(i, fmt.Sprintf("mki (RDeliver %d) 1 %d", ticket[e.A], ticket[e.A]), ringDigit(7, ticket[e.A], 0, 1, ticket[e.A]))
 		case evRUnlock:
-			emitAt(i, "mk RUnlock")
+			emitAt(i, "mk RUnlock", ringDigit(8, 0, 0, -1, -1))
 		case evRSigPre, hvWItem, hvRItem:
 		default:
-			return "", fmt.Sprintf("unexpected event kind %d in a ring trace", e.Kind), kinds
+			return "", fmt.Sprintf("unexpected event kind %d in a ring trace", e.Kind), kinds, "", 0
 		}
 	}
 	_ = woke
 	for _, sg := range sigs {
 		if sg.ep < 0 {
-			emitAt(sg.u, "mk (RSignal None)")
+			emitAt(sg.u, "mk (RSignal None)", ringDigit(9, 0, 0, -1, -1))
 		} else {
 			pos := sg.u
 			if eps[sg.ep].a > pos {
 				pos = eps[sg.ep].a
 			}
-			emitAt(pos, fmt.Sprintf("mk (RSignal (Some %d%%nat))", eps[sg.ep].p))
+			emitAt(pos, fmt.Sprintf("mk (RSignal (Some %d%%nat))", eps[sg.ep].p), ringDigit(10, eps[sg.ep].p, 0, -1, -1))
 		}
 	}
 	sort.SliceStable(out, func(a, b int) bool {
@@ -584,10 +600,12 @@ func translateRing(c Case, info *runInfo) (string, string, map[string]int) {
 		return out[a].sub < out[b].sub
 	})
 	ss := make([]string, len(out))
+	ds := make([]uint64, len(out))
 	for i, o := range out {
 		ss[i] = o.text
+		ds[i] = o.digit
 	}
-	return strings.Join(ss, "; "), "", kinds
+	return strings.Join(ss, "; "), "", kinds, encodeDigits(ds), len(ds)
 }
 
 // ticketsEmittedTarget: at a PutTicket event one more label is due unless labels were emitted ahead.
@@ -624,12 +642,14 @@ func run(ci any) (res obs.Result) {
 	if info.stuck {
 		return res
 	}
-	var body, terr string
+	var body, terr, enc string
 	var kinds map[string]int
+	var nsteps int
+	_ = nsteps
 	if c.Queue == "flow" {
-		body, terr, kinds = translateFlow(c, info)
+		body, terr, kinds, enc, nsteps = translateFlow(c, info)
 	} else {
-		body, terr, kinds = translateRing(c, info)
+		body, terr, kinds, enc, nsteps = translateRing(c, info)
 	}
 	ks := make([]string, 0, len(kinds))
 	for k, n := range kinds {
@@ -637,16 +657,21 @@ func run(ci any) (res obs.Result) {
 	}
 	sort.Strings(ks)
 	res.Obs.(map[string]any)["labels"] = strings.Join(ks, " ")
-	res.Sig = body
+	res.Sig = fmt.Sprintf("%x", sha1.Sum([]byte(body)))
 	if terr != "" {
 		res.Oracle += " | trace: " + terr
 		res.Class = "trace"
 		return res
 	}
+	// the readable trace (Ring.tstep / Flow.tstep terms) is kept in the observation; the model gets the compact encoding
+	if len(body) > 6000 {
+		body = body[:6000] + " ..."
+	}
+	res.Obs.(map[string]any)["trace"] = body
 	if c.Queue == "flow" {
-		res.Coq = fmt.Sprintf("(FlowTrace %d%%nat [%s] %d%%nat)", c.Factor, body, info.total)
+		res.Coq = fmt.Sprintf("(FlowEnc %d%%nat %s%%N %d%%nat)", c.Factor, enc, info.total)
 	} else {
-		res.Coq = fmt.Sprintf("(RingTrace %d%%nat %d%%N [%s] %d%%nat)", c.Factor, c.Start, body, info.total)
+		res.Coq = fmt.Sprintf("(RingEnc %d%%nat %d%%N %s%%N %d%%nat)", c.Factor, c.Start, enc, info.total)
 	}
 	return res
 }
